@@ -186,6 +186,9 @@ class FixedMarginBusiness(Sector):
         self.OutputName = output_name
         self.AddVariable('SUP_' + output_name, 'Supply of goods', '')
         self.AddVariable('PROF', 'Profits', 'SUP_' + output_name + ' - DEM_' + labour_input_name)
+        # The labour demand must exist from the start, so that the labour market finds it no matter
+        # which of the two objects was declared first; the expression is filled in by _GenerateEquations.
+        self.AddVariable('DEM_' + labour_input_name, 'Demand for labour', '')
 
     def _GenerateEquations(self):
         # self.AddVariable('SUP_GOOD', 'Supply of goods', '<TO BE DETERMINED>')
@@ -197,11 +200,11 @@ class FixedMarginBusiness(Sector):
         except KeyError:
             raise Warning('Business {0} Cannot Find Market for {1}'.format(self.Code, self.OutputName))
         if self.ProfitMargin == 0:
-            self.AddVariable('DEM_' + self.LabourInputName, 'Demand for labour', market_sup_good)
+            self.SetEquationRightHandSide('DEM_' + self.LabourInputName, market_sup_good)
             # self.Equations['PROF'] = ''
         else:
-            self.AddVariable('DEM_' + self.LabourInputName, 'Demand for labour',
-                             '%0.3f * %s' % (wage_share, market_sup_good))
+            self.SetEquationRightHandSide('DEM_' + self.LabourInputName,
+                                          '%0.3f * %s' % (wage_share, market_sup_good))
             self.SetEquationRightHandSide('PROF', '%0.3f * %s' % (self.ProfitMargin, market_sup_good))
         for s in self.Parent.SectorList:
             if 'DIV' in s.EquationBlock.Equations:
